@@ -46,6 +46,53 @@ func (Attribution) AfterScan(ctx *h.ScanCtx) []h.Violation {
 	return out
 }
 
+// FleetExitAttribution: the documented "give up after three consecutive failed fleet provisionings"
+// exit is per node group: the group being processed when the exit is requested must itself have
+// failed three times in a row (in this controller lifetime).
+type FleetExitAttribution struct{ fails map[string]int }
+
+func (m *FleetExitAttribution) Key() string { return fmt.Sprint(m.fails) }
+func (m *FleetExitAttribution) AfterScan(ctx *h.ScanCtx) []h.Violation {
+	if m.fails == nil || ctx.Fresh {
+		m.fails = map[string]int{}
+	}
+	var out []h.Violation
+	last := ""
+	for _, g := range ctx.Groups {
+		created, attachedOK, cleaned := false, 0, false
+		for _, e := range ctx.Entries {
+			if e.Phase != "group" || e.Group != g.Name {
+				continue
+			}
+			switch e.Op {
+			case sim.OpCreateFleet:
+				created = created || e.Err == ""
+			case sim.OpAttach:
+				if e.Err == "" {
+					attachedOK++
+				}
+			case sim.OpTermIns:
+				cleaned = true
+				last = g.Name
+			}
+		}
+		switch {
+		case created && cleaned:
+			m.fails[g.Name]++
+		case created && attachedOK > 0:
+			m.fails[g.Name] = 0
+		}
+	}
+	if ctx.Res.Exit && last != "" {
+		ctx.H.Cov["c12.fleet-give-up-exits"]++
+		if m.fails[last] < 3 {
+			out = append(out, h.Violation{Prop: "C12", Sig: "C12/exit-on-other-groups-failures",
+				Msg: fmt.Sprintf("scan %d: escalator gave up (exit) while processing group %s after only %d consecutive failed fleet provisionings of that group; failures of other groups were counted against it (%v)", ctx.Scan, last, m.fails[last], m.fails)})
+		}
+	}
+	return out
+}
+
 // NonInterference compares the journal of every group other than the perturbed one with the
 // journal of the unperturbed (root) execution of the same scenario, scan by scan.
 type NonInterference struct {
@@ -65,6 +112,11 @@ func (m *NonInterference) AfterScan(ctx *h.ScanCtx) []h.Violation {
 		return nil
 	}
 	cur := ctx.H.Summaries[i]
+	if base[i].Fatal && !cur.Fatal {
+		// the unperturbed execution stopped here (documented exit); nothing to compare from now on
+		m.stopped = true
+		return nil
+	}
 	if cur.Fatal {
 		m.stopped = true
 		// only the documented not-in-group condition may stop the loop; any other error returned by
@@ -74,6 +126,10 @@ func (m *NonInterference) AfterScan(ctx *h.ScanCtx) []h.Violation {
 				return []h.Violation{{Prop: "C12", Sig: "C12/failure-not-contained/scan-aborted",
 					Msg: fmt.Sprintf("scan %d: the scan returned %q and stopped processing node groups", ctx.Scan, err.Error())}}
 			}
+		}
+		if ctx.Res.Panic != nil {
+			return []h.Violation{{Prop: "C12", Sig: "C12/failure-not-contained/panic",
+				Msg: fmt.Sprintf("scan %d: a failure while one group was processed made the scan panic (%v): later groups were not processed", ctx.Scan, ctx.Res.Panic)}}
 		}
 		return nil
 	}
@@ -129,7 +185,7 @@ func C12Scenarios(tier string) []*h.Scenario {
 			}
 		}
 		names := initialNames(a.ASG.Name, 5)
-		s.Events = func(hh *h.Hist, slot int) []h.Event { return fixedNodeEvents(a, names) }
+		s.Events = func(hh *h.Hist, slot int) []h.Event { return append(fixedNodeEvents(a, names), evDescInsDown()) }
 		// non-fatal failures confined to group a: any call made while a is being processed
 		s.FaultOps = map[string]bool{sim.OpK8sGet: true, sim.OpK8sUpdate: true, sim.OpK8sDelete: true, sim.OpTerminate: true, sim.OpSetDesired: true, sim.OpListPods: true, sim.OpListNodes: true}
 		s.FaultFilter = func(hh *h.Hist, op, target string) bool { return hh.W.CurrentGroup() == "a" }
@@ -213,7 +269,31 @@ func C12Scenarios(tier string) []*h.Scenario {
 		}
 		return s
 	}
+	// two groups in fleet mode whose instances never become ready: every scale-up fails and is cleaned up
+	fleet := func() *h.Scenario {
+		ga, gb := StdGroup("a"), StdGroup("b")
+		for _, g := range []*h.GroupSpec{&ga, &gb} {
+			g.Opts.AWS.LaunchTemplateID, g.Opts.AWS.LaunchTemplateVersion = "lt-1", "1"
+		}
+		s := &h.Scenario{Name: "c12.fleet-two", Groups: []h.GroupSpec{ga, gb}, Slots: 5, Quantum: Q, MaxEventsPerSlot: 2, Shared: map[string]any{}}
+		s.Init = func(hh *h.Hist) {
+			hh.W.ReadyFromPoll = -1
+			for i, as := range InitASGs(hh) {
+				g := s.Groups[i]
+				n := hh.W.AddNode(as, sim.NodeOpt{Age: 20 * Q})
+				hh.W.AddPod(podOn(g, n.Name, 900))
+				hh.W.AddPod(podOn(g, "", 900))
+			}
+		}
+		s.Events = func(hh *h.Hist, slot int) []h.Event {
+			return []h.Event{evClearAllPods(ga), evBurst(ga, 1, 900), evClearAllPods(gb), evBurst(gb, 1, 900),
+				{Label: "instances-become-ready", Apply: func(hh *h.Hist) { hh.W.ReadyFromPoll = 1 }},
+				{Label: "instances-never-ready", Apply: func(hh *h.Hist) { hh.W.ReadyFromPoll = -1 }}}
+		}
+		return s
+	}
 	return []*h.Scenario{
+		fleet(),
 		empty("c12.a-emptyb", []string{"a", "b"}),
 		mk("c12.a-b", []string{"a", "b"}),
 		mk("c12.b-a", []string{"b", "a"}),
@@ -230,7 +310,10 @@ func init() {
 			"non-trivial = scans in which another group acted and was compared; distinct = distinct perturbed histories' outcome traces (counted via slot/class keys of group a)",
 		Scenarios: C12Scenarios,
 		MonitorsFor: func(s *h.Scenario) []h.Monitor {
-			return []h.Monitor{Attribution{}, &NonInterference{S: s, Perturb: "a"}, &NearMiss{Seen: map[string]struct{}{}}}
+			if s.Name == "c12.fleet-two" {
+				return []h.Monitor{Attribution{}, &FleetExitAttribution{}, &NearMiss{Seen: map[string]struct{}{}}}
+			}
+			return []h.Monitor{Attribution{}, &FleetExitAttribution{}, &NonInterference{S: s, Perturb: "a"}, &NearMiss{Seen: map[string]struct{}{}}}
 		},
 		Bound: func(tier string) int {
 			if tier == "thorough" {
@@ -240,6 +323,6 @@ func init() {
 		},
 		Nontrivial:  seenKeys,
 		Assumptions: append([]string{"group a scales with SetDesiredCapacity (zero virtual time); a fleet attach in a takes 1-3 virtual seconds, which legitimately moves b's reaper clock and is not interference"}, commonAssumptions...),
-		Alphabet:    []string{"pod-start/finish(a.i)", "cordon(a.i)", "force-taint(a.i)", "ext-taint(a.i, now-5q)", "burst(a)", "clear-pods(a)", "register-node(a, odd size)", "resize-first-node(a)", "fail at any k8s/AWS call or lister while a is processed"},
+		Alphabet:    []string{"pod-start/finish(a.i)", "cordon(a.i)", "force-taint(a.i)", "ext-taint(a.i, now-5q)", "burst(a)", "clear-pods(a)", "ec2-describe-instances-down", "register-node(a, odd size)", "resize-first-node(a)", "fail at any k8s/AWS call or lister while a is processed"},
 	})
 }
